@@ -432,6 +432,23 @@ struct StreamsHarness : vh::Harness {
         kind = kFile;
         return "ok";
       }
+      if (w.size() == 3 && (w[1] == "filer" || w[1] == "filewo")) {
+        // the other ways into LocalFileSystem::Open: a "file://" URI, mode "r" through SeekStream::CreateForRead
+        // (`filer`: existing content, read only) and mode "w" through Stream::Create (`filewo`: truncated, write only)
+        path = out_dir + "/c19_file.bin";
+        std::string b = vh::unhex(w[2]);
+        FILE *f = fopen(path.c_str(), "wb");
+        if (!f) { perror("tmp file"); exit(3); }
+        if (!b.empty() && fwrite(b.data(), 1, b.size(), f) != b.size()) { perror("tmp file"); exit(3); }
+        fclose(f);
+        std::string uri = "file://" + path;
+        dmlc::SeekStream *ss = w[1] == "filer" ? dmlc::SeekStream::CreateForRead(uri.c_str())
+                                                : dynamic_cast<dmlc::SeekStream *>(dmlc::Stream::Create(uri.c_str(), "w"));
+        if (!ss) { fprintf(stderr, "no SeekStream for %s\n", uri.c_str()); exit(3); }
+        strm.reset(ss);
+        kind = kFile;
+        return "ok";
+      }
       if (w.size() == 3 && w[1] == "ostream") {
         os.reset(new dmlc::ostream(&recs[0], strtoull(w[2].c_str(), nullptr, 10)));
         kind = kOStream;
@@ -462,7 +479,7 @@ struct StreamsHarness : vh::Harness {
     auto w0 = vh::split_ws(c.ops[0]);
     Ref r;
     r.kind = w0[1] == "memstr" ? kMemStr : w0[1] == "memfixed" ? kMemFixed : kFile;
-    r.data = w0[1] == "filew" ? std::string() : vh::unhex(w0[2]);
+    r.data = (w0[1] == "filew" || w0[1] == "filewo") ? std::string() : vh::unhex(w0[2]);
     bool closed = false;
     for (size_t i = 1; i < c.ops.size(); ++i) {
       auto w = vh::split_ws(c.ops[i]);
@@ -698,7 +715,8 @@ struct StreamsHarness : vh::Harness {
     if (c.ops.empty()) return;
     auto w0 = vh::split_ws(c.ops[0]);
     if (w0.size() < 3 || w0[0] != "open" || res[0] != "ok") return;
-    if (w0[1] == "memstr" || w0[1] == "memfixed" || w0[1] == "file") oracle_store(c, res, fail);
+    if (w0[1] == "memstr" || w0[1] == "memfixed" || w0[1] == "file" || w0[1] == "filew" || w0[1] == "filer" || w0[1] == "filewo")
+      oracle_store(c, res, fail);
     else if (w0[1] == "ostream") oracle_ostream(c, res, fail);
     else if (w0[1] == "istream" && w0.size() >= 4) oracle_istream(c, res, fail);
   }
@@ -923,6 +941,42 @@ int main(int argc, char **argv) {
         }
       }
       if (k == 2) c.ops.push_back("close");
+      c.ops.push_back("dump");
+      run(c);
+    }
+  }
+  // ---- (2b) read-only / write-only local files opened through "file://" URIs ---------------------------
+  for (int k = 0; k < 2; ++k) {
+    size_t ncases = T ? 60 : 12;
+    for (size_t it = 0; it < ncases; ++it) {
+      Case c;
+      const char *name = k == 0 ? "filer" : "filewo";
+      c.kind = std::string(name) + " random";
+      size_t init = rng.below(rng.chance(1, 4) ? 300 : 30);
+      c.ops.push_back(std::string("open ") + name + " " + vh::hex(rand_bytes(rng, init)));
+      uint64_t len = k == 0 ? init : 0, cur = 0;
+      size_t nops = 40 + rng.below(T ? 600 : 200);
+      for (size_t j = 0; j < nops; ++j) {
+        unsigned d = rng.below(100);
+        if (d < 55) {
+          if (k == 0) {
+            uint64_t n = rng.chance(1, 12) ? rng.below(400) : rng.below(24);
+            c.ops.push_back("read " + U(n));
+            if (cur <= len) cur += std::min<uint64_t>(n, len - cur);
+          } else {
+            size_t n = rng.chance(1, 15) ? rng.below(300) : rng.below(20);
+            c.ops.push_back("write " + vh::hex(rand_bytes(rng, n)));
+            if (n) { cur += n; len = std::max(len, cur); }
+          }
+        } else if (d < 90) {
+          uint64_t p = rng.chance(1, 6) ? len + 1 + rng.below(5) : rng.below(len + 1);
+          c.ops.push_back("seek " + U(p));
+          cur = p;
+        } else {
+          c.ops.push_back("tell");
+        }
+      }
+      c.ops.push_back("close");
       c.ops.push_back("dump");
       run(c);
     }
